@@ -941,6 +941,22 @@ def tamper_catalogue(case, st):
         script = st["outputs"][ci][field]
         other_spk = S.p2sh(S.hash160(script)) if kind == "p2wsh" else S.p2wsh(S.sha256(script))
         out.append(("out-spk-other-commitment-type", mut(lambda s, t: t["outs"][ci].__setitem__("spk", other_spk))))
+        # the honest hash under a DIFFERENT witness version: OP_1 / OP_16 <sha256(script)> is a taproot output key resp. an
+        # unknown-version program, OP_1 <hash160(script)> likewise -- none of them commits to the script, the wallet cannot
+        # spend them (genuine defect found by a sub-agent of the fourth seed round: the WitnessScript branch of
+        # PSBTOut.validate compared commands[1] without looking at the output type; repaired by a fix: commit)
+        for vop, vn in ((0x51, "v1"), (0x60, "v16")):
+            out.append(("out-spk-honest-sha256-under-witness-%s" % vn,
+                        mut(lambda s, t, vop=vop: t["outs"][ci].__setitem__("spk", bytes([vop, 0x20]) + S.sha256(script)))))
+            out.append(("out-spk-honest-hash160-under-witness-%s" % vn,
+                        mut(lambda s, t, vop=vop: t["outs"][ci].__setitem__("spk", bytes([vop, 0x14]) + S.hash160(script)))))
+
+        def nest_v(s, t, vop):
+            # nested metadata (RedeemScript = P2WSH program of the honest script) under OP_n <hash160(RedeemScript)>
+            s["outputs"][ci]["witness_script"] = script
+            s["outputs"][ci]["redeem_script"] = S.p2wsh(S.sha256(script))
+            t["outs"][ci]["spk"] = bytes([vop, 0x14]) + S.hash160(S.p2wsh(S.sha256(script)))
+        out.append(("out-nested-metadata-under-witness-v1-program", mut(lambda s, t: nest_v(s, t, 0x51))))
 
         # the change metadata re-dressed as nested segwit (RedeemScript = P2WSH program of the honest script, which
         # becomes the WitnessScript): once under a foreign P2SH hash, once under the hash that really commits to it
